@@ -28,6 +28,16 @@ def user_repair(X, Xb, xl, xu):
     return X
 
 
+from pymoo.core.repair import Repair
+
+
+class NoOpRepair(Repair):
+    """a pymoo Repair that leaves every value as it is (e.g. a domain-specific repair with nothing to do on this problem)"""
+
+    def _do(self, problem, X, **kwargs):
+        return X
+
+
 class StatefulRepair:
     """user-supplied de_repair given to the constructor as a callable *object* with state: the pull towards the reference
     vector weakens with the number of calls made so far (a checkpoint has to carry that number along)"""
